@@ -20,6 +20,8 @@ static ascon_masked_key_128_t g_mkey;
 static ascon_masked_key_160_t g_mkey160;
 static Bytes g_const_ad, g_const_pt, g_const_nonce;
 
+static void ensure_shared();
+
 static Bytes shared_snapshot() {
     Bytes b;
     auto add = [&](const void *p, size_t n) { b.insert(b.end(), (const uint8_t *)p, (const uint8_t *)p + n); };
@@ -70,6 +72,7 @@ static bool classify_round(const KV &c, std::vector<std::string> &tags) {
 }
 
 static std::string check_round(const KV &c) {
+    ensure_shared();
     int T = (int)tonum(c, "threads"), n = (int)tonum(c, "calls");
     uint64_t seed = tonum(c, "seed");
     unsigned yield = (unsigned)tonum(c, "yield");
@@ -107,8 +110,44 @@ static std::string check_round(const KV &c) {
     return "";
 }
 
-int main(int argc, char **argv) {
-    g_use_tape = false;
+// ---- first use: the process has not called into the library yet (run with VERIF_FORK=1: one fresh child per
+// case); T threads make the SAME calls at the same moment as the process's very first library calls, so that any
+// lazily initialised hidden state is initialised concurrently.  Afterwards the same calls run once more
+// sequentially in that process: every thread must have obtained that result.
+static rc::Gen<KV> gen_first() {
+    return rc::gen::map(rc::gen::tuple(rc::gen::element(2, 4, 8), inRangeFull(1, 4), rc::gen::arbitrary<uint32_t>()),
+                        [](std::tuple<int, int, uint32_t> t) {
+        KV c; c["threads"] = num(std::get<0>(t)); c["calls"] = num(std::get<1>(t)); c["seed"] = num(std::get<2>(t)); return c; });
+}
+static bool classify_first(const KV &c, std::vector<std::string> &tags) {
+    uint64_t seed = tonum(c, "seed");
+    for (int j = 0; j < (int)tonum(c, "calls"); ++j) tags.push_back(std::string("first-call-group=") + GNAME[tonum(derive_call(seed, 0, j), "group")]);
+    return true;
+}
+static std::string check_first(const KV &c) {
+    int T = (int)tonum(c, "threads"), n = (int)tonum(c, "calls");
+    uint64_t seed = tonum(c, "seed");
+    std::vector<KV> calls;
+    for (int j = 0; j < n; ++j) calls.push_back(derive_call(seed, 0, j));
+    std::vector<std::vector<uint64_t>> got(T);
+    pthread_barrier_t bar;
+    pthread_barrier_init(&bar, nullptr, (unsigned)T);
+    std::vector<std::thread> th;
+    for (int t = 0; t < T; ++t) th.emplace_back([&, t]() { pthread_barrier_wait(&bar); for (int j = 0; j < n; ++j) got[t].push_back(run_call(calls[j])); });
+    for (auto &x : th) x.join();
+    pthread_barrier_destroy(&bar);
+    for (int j = 0; j < n; ++j) {
+        if (tonum(calls[j], "group") == G_RANDOM) continue;
+        uint64_t want = run_call(calls[j]);
+        for (int t = 0; t < T; ++t) if (got[t][j] != want) return "first use: thread " + num(t) + " of " + num(T) + ", call " + num(j) + " (group " + GNAME[tonum(calls[j], "group")] + ") differs from the sequential run";
+    }
+    return "";
+}
+
+static bool g_shared_ready = false;
+static void ensure_shared() {
+    if (g_shared_ready) return;
+    g_shared_ready = true;
     Bytes key(16);
     for (int i = 0; i < 16; ++i) key[i] = (uint8_t)(i * 7 + 1);
     Bytes key20(20);
@@ -119,6 +158,10 @@ int main(int argc, char **argv) {
     ascon_masked_key_128_init(&g_mkey, key.data());
     ascon_masked_key_160_init(&g_mkey160, key20.data());
     g_const_ad.assign(23, 0x42); g_const_pt.assign(100, 0x17); g_const_nonce.assign(16, 0x99);
-    std::vector<Prop> props = {{"c16_threads", gen_round, check_round, classify_round}};
+}
+
+int main(int argc, char **argv) {
+    g_use_tape = false;
+    std::vector<Prop> props = {{"c16_threads", gen_round, check_round, classify_round}, {"c16_first_use", gen_first, check_first, classify_first}};
     return harness_main(argc, argv, props);
 }
